@@ -3,10 +3,11 @@ module verifgo
 go 1.20
 
 require (
+	go4.org v0.0.0-20230225012048-214862532bf5
 	golang.org/x/text v0.9.0
 	zombiezen.com/go/commonmark v0.0.0
 )
 
-require golang.org/x/net v0.8.0 // indirect
+require golang.org/x/net v0.8.0
 
 replace zombiezen.com/go/commonmark => /repo
